@@ -157,3 +157,107 @@ Proof.
   - destruct (HI _ r E) as [_ Hd]. now apply (row_values_trim _ r Hd).
   - now destruct (Z.to_nat (col - 1)).
 Qed.
+
+(* ---- GetCols / the Cols iterator ---- *)
+Lemma shown_cv oc : shown oc = match oc with Some c => c_v c | None => [] end.
+Proof.
+  destruct oc as [c|]; [|reflexivity]. unfold shown, emit. destruct (c_v c) eqn:E; cbn; [destruct (c_f c); reflexivity|reflexivity].
+Qed.
+
+Lemma nth_app_repeat (acc : list bytes) n i : nth i (acc ++ repeat [] n) [] = nth i acc [].
+Proof.
+  destruct (Nat.lt_ge_cases i (length acc)) as [H|H].
+  - now rewrite app_nth1.
+  - rewrite app_nth2 by lia. rewrite (nth_overflow acc) by lia.
+    destruct (Nat.lt_ge_cases (i - length acc) n) as [H2|H2].
+    + apply nth_repeat.
+    + apply nth_overflow. rewrite repeat_length. lia.
+Qed.
+
+Lemma col_fold_spec (c : nat) : forall rs k acc, (length acc <= k)%nat ->
+  (forall i, (i < k)%nat -> nth i (col_fold c_v c rs k acc) [] = nth i acc []) /\
+  (forall j, nth (k + j) (col_fold c_v c rs k acc) [] =
+     match nth_error rs j with
+     | Some r => match nth_error (r_cells r) c with Some cl => c_v cl | None => [] end
+     | None => []
+     end).
+Proof.
+  induction rs as [|r rs IH]; intros k acc Hlen; cbn [col_fold].
+  - split; [reflexivity|]. intros j. rewrite nth_overflow by lia. now destruct j.
+  - set (acc' := match r_cells r with [] => acc | _ => _ end).
+    assert (Hacc' : (length acc' <= S k)%nat /\ (forall i, (i < k)%nat -> nth i acc' [] = nth i acc []) /\
+                    nth k acc' [] = match nth_error (r_cells r) c with Some cl => c_v cl | None => [] end).
+    { unfold acc'. destruct (r_cells r) as [|c0 cs] eqn:Ec.
+      - split; [lia|]. split; [reflexivity|]. rewrite nth_overflow by lia. now destruct c.
+      - rewrite <- Ec. set (a1 := acc ++ repeat [] (k - length acc)).
+        assert (La1 : length a1 = k) by (unfold a1; rewrite app_length, repeat_length; lia).
+        destruct (nth_error (r_cells r) c) as [cl|].
+        + destruct (c_v cl) as [|b v] eqn:Ev; cbn [is_nil].
+          * split; [lia|]. split; [intros i _; apply nth_app_repeat|]. apply nth_overflow. lia.
+          * refine (conj _ (conj _ _)).
+            -- rewrite app_length, La1. cbn. lia.
+            -- intros i Hi. rewrite app_nth1 by lia. apply nth_app_repeat.
+            -- rewrite app_nth2 by lia. rewrite La1, Nat.sub_diag. reflexivity.
+        + split; [lia|]. split; [intros i _; apply nth_app_repeat|]. apply nth_overflow. lia. }
+    destruct Hacc' as (L' & Hpre & Hk). destruct (IH (S k) acc' L') as [I1 I2]. split.
+    + intros i Hi. rewrite I1 by lia. apply Hpre. exact Hi.
+    + intros [|j].
+      * rewrite Nat.add_0_r, I1 by lia. cbn [nth_error]. exact Hk.
+      * replace (k + S j)%nat with (S k + j)%nat by lia. rewrite I2. reflexivity.
+Qed.
+
+Lemma last_content_ge cs : forall i j cl, nth_error cs j = Some cl -> has_content cl = true -> (S (i + j) <= last_content cs i)%nat.
+Proof.
+  induction cs as [|c cs IH]; intros i j cl Hn Hc; [destruct j; discriminate|]. cbn [last_content].
+  destruct j as [|j]; cbn [nth_error] in Hn.
+  - injection Hn as ->. rewrite Hc. lia.
+  - specialize (IH (S i) j cl Hn Hc). lia.
+Qed.
+Lemma fold_max_ge (l : list row) : forall m,
+  (m <= fold_left (fun m r => Nat.max m (last_content (r_cells r) 0)) l m)%nat /\
+  (forall r, In r l -> (last_content (r_cells r) 0 <= fold_left (fun m r => Nat.max m (last_content (r_cells r) 0)) l m)%nat).
+Proof.
+  induction l as [|a l IH]; intros m; cbn [fold_left]; [split; [lia|intros r []]|].
+  destruct (IH (Nat.max m (last_content (r_cells a) 0))) as [H1 H2]. split; [lia|].
+  intros r [E|Hi]; [subst a; lia|exact (H2 r Hi)].
+Qed.
+Lemma total_cols_ge sh : forall r, In r (rows sh) -> (last_content (r_cells r) 0 <= total_cols sh)%nat.
+Proof. intros r Hi. exact (proj2 (fold_max_ge (rows sh) 0%nat) r Hi). Qed.
+
+Lemma drop_trailing_nil_nth (l : list bytes) : forall i, nth i (drop_trailing_nil l) [] = nth i l [].
+Proof.
+  induction l as [|x l IH]; intros i; cbn [drop_trailing_nil]; [reflexivity|].
+  destruct (drop_trailing_nil l) as [|y r] eqn:E.
+  - destruct x as [|b x']; cbn [is_nil].
+    + destruct i as [|i]; cbn; [reflexivity|]. rewrite <- IH. now destruct i.
+    + destruct i as [|i]; cbn [nth]; [reflexivity|]. rewrite <- IH. now destruct i.
+  - destruct i as [|i]; cbn [nth]; [reflexivity|]. apply IH.
+Qed.
+
+(* GetCols / the Cols iterator show, at every position, the stored text of the positional cell *)
+Theorem get_cols_agree sh col rw : 1 <= col -> 1 <= rw ->
+  nth (Z.to_nat (rw - 1)) (nth (Z.to_nat (col - 1)) (get_cols c_v sh) []) [] = shown (cell_at sh col rw).
+Proof.
+  intros Hc Hr. rewrite shown_cv. unfold get_cols, cell_at.
+  destruct (Nat.lt_ge_cases (Z.to_nat (col - 1)) (total_cols sh)) as [Hin|Hout].
+  - rewrite (nth_indep _ [] (drop_trailing_nil (col_fold c_v 0 (rows sh) 0 []))) by (rewrite map_length, seq_length; exact Hin).
+    rewrite (map_nth (fun c => drop_trailing_nil (col_fold c_v c (rows sh) 0 []))), seq_nth by exact Hin. cbv beta. cbn [Nat.add]. rewrite drop_trailing_nil_nth.
+    pose proof (proj2 (col_fold_spec (Z.to_nat (col - 1)) (rows sh) 0 [] (le_n 0)) (Z.to_nat (rw - 1))) as G. cbn [Nat.add] in G.
+    rewrite G. destruct (nth_error (rows sh) (Z.to_nat (rw - 1))); reflexivity.
+  - assert (E0 : nth (Z.to_nat (col - 1)) (map (fun c => drop_trailing_nil (col_fold c_v c (rows sh) 0 [])) (seq 0 (total_cols sh))) [] = [])
+      by (apply nth_overflow; rewrite map_length, seq_length; exact Hout).
+    rewrite E0. rewrite (nth_overflow []) by (cbn; lia).
+    destruct (nth_error (rows sh) (Z.to_nat (rw - 1))) as [r|] eqn:E; [|reflexivity].
+    pose proof (total_cols_ge sh r (nth_error_In _ _ E)) as Hle.
+    destruct (nth_error (r_cells r) (Z.to_nat (col - 1))) as [cl|] eqn:E2; [|reflexivity].
+    (* a cell beyond the last column with content has no content: its text is empty *)
+    destruct (has_content cl) eqn:Hcc.
+    + pose proof (last_content_ge (r_cells r) 0 _ cl E2 Hcc). lia.
+    + unfold has_content in Hcc. destruct (c_v cl); [reflexivity|discriminate].
+Qed.
+
+(* hence GetCols and GetRows show the same text at every position *)
+Theorem get_cols_vs_rows sh col rw : Inv sh -> 1 <= col -> 1 <= rw ->
+  nth (Z.to_nat (rw - 1)) (nth (Z.to_nat (col - 1)) (get_cols c_v sh) []) [] =
+  nth (Z.to_nat (col - 1)) (nth (Z.to_nat (rw - 1)) (get_rows c_v sh) []) [].
+Proof. intros HI Hc Hr. rewrite (get_cols_agree sh col rw Hc Hr), (get_rows_agree sh col rw HI Hc Hr). reflexivity. Qed.
